@@ -140,6 +140,14 @@ template <class T> static void sphere (Gen<T>& g, int it)
     if (fam == 3) { u = nz (g); a0 = c + u * (rad + 2); }                      // outside, direction away from the centre
     if (fam == 4) { u = nz (g); a0 = c - u * T (3); }
     if (fam == 5) { int ax = g.rng.below (3); Vec3<T> o (0, 0, 0); o[ax] = rad + T (g.rng.range (-1, 1)) * T (0.125); u[ax] = 0; if (u.length2 () == 0) u[(ax + 1) % 3] = 1; a0 = c + o - u * T (2); }
+    if (it % 12 == 7 || it % 12 == 10)
+    {   // the origin hundreds to thousands of radii away, aimed at the centre, half a radius off it, or one and a half radii off it
+        Vec3<T> far_ = nz (g) * T (40 * (1 + g.rng.below (8))) * rad;
+        Vec3<T> side (-far_.y, far_.x, 0); if (side.length2 () == 0) side = Vec3<T> (0, -far_.z, far_.y);
+        side = side.normalized () * rad * T (g.rng.below (3)) * T (0.75);            // 0, 0.75 r, 1.5 r off the centre
+        a0 = c + far_;
+        u = (c + side) - a0;
+    }
     Sphere3<T> S (c, rad);
     Line3<T> l (a0, a0 + u);
     T tt = 7; Vec3<T> pt (7, 7, 7);
